@@ -522,8 +522,10 @@ pub fn gen_upgrade(rng: &mut Rng) -> ConnCase {
         r.hdrs.push(("HTTP2-Settings".into(), "AAMAAABkAARAAAAAAAIAAAAA".into()));
     }
     if rng.chance(1, 2) {
-        r.hdrs.push(("Content-Length".into(), "3".into())); // ignored: upgrade wins
-        r.declared = Some(3);
+        // ignored: upgrade wins, also over a Content-Length of 0
+        let n = *rng.pick(&[3usize, 0, 0]);
+        r.hdrs.push(("Content-Length".into(), n.to_string()));
+        r.declared = Some(n);
     }
     r.upgrade = true;
     r.last = true;
@@ -567,12 +569,17 @@ pub const BAD_400: &[&[u8]] = &[
     b"GET / HTTP/02.0\r\nHost: x\r\n\r\n",
     b"GET / HTTP/2.00\r\nHost: x\r\n\r\n",
     b"GET / HTTP/1.1.\r\nHost: x\r\n\r\n",
+    // the malformed line is answered when it arrives: the rest of the head need not come
+    b"GET /index.html\r\n",
+    b"GET / HTTP/1.1\r\nHost localhost\r\n",
+    b"GET / HTTP/1.1\r\nHost: x\r\nNoColon\r\nX-More: 1\r\n",
 ];
 pub const BAD_417: &[&[u8]] = &[
     b"POST / HTTP/1.1\r\nExpect: 200-ok\r\nContent-Length: 3\r\n\r\nabc",
     b"GET / HTTP/1.1\r\nexpect: 100-continuex\r\n\r\n",
     b"GET / HTTP/1.0\r\nEXPECT: bogus\r\n\r\n",
     b"PUT /x HTTP/1.1\r\nExpect:\r\n\r\n",
+    b"PUT /x HTTP/1.1\r\nExpect: , ,\r\nContent-Length: 2\r\n\r\nab",
     // no body, and the connection would end after this request anyway
     b"GET /e HTTP/1.0\r\nExpect: bogus\r\n\r\n",
     b"GET /e HTTP/1.1\r\nConnection: upgrade\r\nExpect: 200-ok\r\n\r\n",
@@ -706,6 +713,59 @@ pub fn gen_refused_run(rng: &mut Rng) -> ConnCase {
     assemble(rng, &reqs, script, Mode::HalfClose, "")
 }
 
+/// C16: an obsolete line fold whose text repeats, byte for byte, a header line that the same
+/// connection carried before (in an earlier request, or earlier in the same head): refused like
+/// any other.  Also the Content-Length classes under other spellings of the field name.
+pub fn gen_fold_repeat(rng: &mut Rng, variant: usize) -> ConnCase {
+    let line = *rng.pick(&["Transfer-Encoding: chunked", "Content-Length: 3", "X-Custom: same value"]);
+    let mut reqs = vec![];
+    let mut script = vec![];
+    let ws = *rng.pick(&[" ", "\t", "  "]);
+    match variant % 3 {
+        0 => {
+            // earlier request of the pipeline carries the line
+            let (hn, hv) = line.split_once(": ").unwrap();
+            let mut r = AReq::get("/one");
+            r.method = "POST".into();
+            r.hdrs = vec![("Host".into(), "x".into()), (hn.into(), hv.into())];
+            let (body, wire): (Vec<u8>, Vec<u8>) = if hn == "Transfer-Encoding" {
+                (b"abc".to_vec(), b"3\r\nabc\r\n0\r\n\r\n".to_vec())
+            } else if hn == "Content-Length" {
+                (b"abc".to_vec(), b"abc".to_vec())
+            } else {
+                (vec![], vec![])
+            };
+            r.body = body.clone();
+            r.framing = if hn == "Transfer-Encoding" { Framing::Chunked } else if hn == "Content-Length" { Framing::Len } else { Framing::None };
+            r.declared = if hn == "Content-Length" { Some(3) } else { None };
+            let mut raw = format!("POST /one HTTP/1.1\r\nHost: x\r\n{}\r\n\r\n", line).into_bytes();
+            raw.extend_from_slice(&wire);
+            r.raw = Some(raw);
+            reqs.push(r);
+            script.push(simple_action(0, rng));
+            let bad = format!("POST /two HTTP/1.1\r\nHost: x\r\n{}{}\r\nContent-Length: 31\r\n\r\nGET /smuggled HTTP/1.1\r\nA: b\r\n\r\n", ws, line);
+            reqs.push(AReq::bad("smug", bad.into_bytes()));
+        }
+        1 => {
+            // the same head carries the line twice: once well-formed, once folded
+            let bad = format!("POST /x HTTP/1.1\r\nHost: x\r\n{}\r\n{}{}\r\n\r\nabcGET /next HTTP/1.1\r\n\r\n", line, ws, line);
+            reqs.push(AReq::bad("smug", bad.into_bytes()));
+        }
+        _ => {
+            // invalid Content-Length under another spelling of the name, alone or behind a valid one
+            let name = *rng.pick(&["content-length", "CONTENT-LENGTH", "Content-length", "cOnTeNt-LeNgTh"]);
+            let val = *rng.pick(&["", "+5", "-5", "5x", "abc", "5, 5", "5 5", "18446744073709551616", "0x10"]);
+            let first = if rng.chance(1, 3) { "Content-Length: 5\r\n" } else { "" };
+            let bad = format!("POST /first HTTP/1.1\r\nHost: x\r\n{}{}: {}\r\n\r\nGET /smuggled HTTP/1.1\r\nHost: x\r\n\r\n", first, name, val);
+            reqs.push(AReq::bad("smug", bad.into_bytes()));
+        }
+    }
+    for i in 0..3 {
+        script.push(simple_action(1 + i, rng));
+    }
+    assemble(rng, &reqs, script, Mode::HalfClose, "")
+}
+
 pub const CONN_VALUES: &[&str] = &["close", "Close", "CLOSE", "keep-alive", "Keep-Alive", "upgrade", "foo", "keep-alive, foo", "foo, close", "close, keep-alive", "TE", "", "enclosed", "keepalive"];
 
 /// C12: persistence
@@ -717,6 +777,10 @@ pub fn gen_c12(rng: &mut Rng) -> ConnCase {
     for i in 0..n {
         let mut r = AReq::get(&format!("/p{}", i));
         r.ver = if rng.chance(1, 2) { (1, 0) } else { (1, 1) };
+        // a request need not carry any header field at all
+        if rng.chance(1, 6) {
+            r.hdrs.clear();
+        }
         let mut closes = false;
         if i == closing_at {
             // choose a header that ends the connection for this version
